@@ -17,7 +17,7 @@ def hook_commits():
 
 checks = []
 for pid in ids:
-    if pid not in PROPS or pid not in TEXT:
+    if pid not in PROPS or pid not in TEXT or not PROPS[pid].get('ready', True):
         continue
     t = TEXT[pid]
     checks.append({
